@@ -143,6 +143,12 @@ func (ch *dagChannel) get(isStream bool) (any, bool, error) {
 		return nil, false, nil
 	}
 
+	if len(ch.ControlPredecessors) == 0 && len(ch.DataPredecessors) == 0 {
+		// a node nothing leads to: nothing can route to it, so it never becomes ready (the tests below would hold
+		// vacuously on every poll and the node would be scheduled again in every step)
+		return nil, false, nil
+	}
+
 	for _, state := range ch.ControlPredecessors {
 		if state == dependencyStateWaiting {
 			return nil, false, nil
